@@ -21,6 +21,7 @@ def ready(c):
         body = open(os.path.join(ROOT, "coq", c["props_file"])).read()
     except OSError:
         return False
+    body = re.sub(r"\(\*.*?\*\)", "", body, flags=re.S)
     return len(re.findall(r"^\s*Theorem\s", body, re.M)) >= 2
 
 
